@@ -352,6 +352,12 @@ func (vc *VC) fieldLoc(base *Loc, i int) *Loc {
 		if _, ok := isStruct(ft); ok {
 			return vc.structLoc(vc.embTerm(base.typ, i, base.key), ft)
 		}
+		if a, ok := ft.Underlying().(*types.Array); ok {
+			// array-typed fields live in the element heap at the (injective) address of the field,
+			// so that &x.f, x.f[i] and x.f[lo:hi] all denote the same storage
+			hn, hs := vc.d.elemHeap(a.Elem())
+			return &Loc{kind: lCell, heap: hn, hsort: hs, key: vc.embTerm(base.typ, i, base.key), typ: ft, rootT: ft}
+		}
 		hn, hs := vc.d.fieldHeap(base.typ, i)
 		return &Loc{kind: lField, heap: hn, hsort: hs, key: base.key, typ: ft, rootT: ft}
 	}
@@ -402,6 +408,9 @@ func (vc *VC) loadStruct(st *State, ref string, T types.Type) string {
 		ft := s.Field(i).Type()
 		if _, ok := isStruct(ft); ok {
 			fs = append(fs, vc.loadStruct(st, vc.embTerm(T, i, ref), ft))
+		} else if a, ok := ft.Underlying().(*types.Array); ok {
+			hn, hs := vc.d.elemHeap(a.Elem())
+			fs = append(fs, fmt.Sprintf("(select %s %s)", vc.heap(st, hn, hs), vc.embTerm(T, i, ref)))
 		} else {
 			hn, hs := vc.d.fieldHeap(T, i)
 			fs = append(fs, fmt.Sprintf("(select %s %s)", vc.heap(st, hn, hs), ref))
@@ -417,6 +426,11 @@ func (vc *VC) storeStruct(st *State, ref string, T types.Type, v string) {
 		fv := fmt.Sprintf("(%s %s)", vc.d.accessor(T, i), v)
 		if _, ok := isStruct(ft); ok {
 			vc.storeStruct(st, vc.embTerm(T, i, ref), ft, fv)
+		} else if a, ok := ft.Underlying().(*types.Array); ok {
+			hn, hs := vc.d.elemHeap(a.Elem())
+			k := vc.embTerm(T, i, ref)
+			vc.noteWrite(st, hn, k)
+			vc.setHeap(st, hn, hs, fmt.Sprintf("(store %s %s %s)", vc.heap(st, hn, hs), k, fv))
 		} else {
 			hn, hs := vc.d.fieldHeap(T, i)
 			vc.noteWrite(st, hn, ref)
@@ -505,11 +519,7 @@ func (vc *VC) noteWrite(st *State, heap, key string) {
 		for _, k := range keys {
 			alts = append(alts, fmt.Sprintf("(= %s %s)", key, k))
 		}
-		if strings.HasPrefix(heap, "E.") {
-			alts = append(alts, fmt.Sprintf("(>= %s %s)", key, lp.entryAlloc))
-		} else {
-			alts = append(alts, fmt.Sprintf("(>= (base %s) %s)", key, lp.entryAlloc))
-		}
+		alts = append(alts, fmt.Sprintf("(>= (base %s) %s)", key, lp.entryAlloc))
 		goal := "(or " + strings.Join(alts, " ") + ")"
 		vc.oblige(fmt.Sprintf("loop%d.modifies", lp.ordinal), "", vc.reach[vc.curBlock], goal,
 			fmt.Sprintf("write to %s inside loop %d stays within the loop frame", heap, lp.ordinal))
@@ -1065,11 +1075,7 @@ func (vc *VC) enterLoop(lp *loopInfo, b *ssa.BasicBlock, st *State, edges []inEd
 			}
 		}
 		var conj []string
-		if strings.HasPrefix(n, "E.") {
-			conj = append(conj, fmt.Sprintf("(< r!f %s)", lp.entryAlloc))
-		} else {
-			conj = append(conj, fmt.Sprintf("(< (base r!f) %s)", lp.entryAlloc))
-		}
+		conj = append(conj, fmt.Sprintf("(< (base r!f) %s)", lp.entryAlloc))
 		for _, k := range lp.frameKeys[n] {
 			conj = append(conj, fmt.Sprintf("(not (= r!f %s))", k))
 		}
